@@ -5,12 +5,13 @@ from .util import call
 
 ID = 'C02'
 LEAN_MODULE = 'KernProofs.C02'
-EXTRA_MODULES = ['KernProofs.C02Tree', 'KernProofs.C02Tok']
+EXTRA_MODULES = ['KernProofs.C02Tree', 'KernProofs.C02Tok', 'KernProofs.C02Surplus']
 THEOREMS = ['KM.C02.C02_one_stage_per_line', 'KM.C02.C02_measure_index_ok', 'KM.C02.splitLinesAux_line', 'KM.C02.line_boundary_free', 'KM.C02.splitRow_renderLine', 'KM.C02.C02_reader_literal', 'KM.C02.C02_surplus_data', 'KM.C02.C02_surplus_operator', 'KM.C02.C02_surplus_comment', 'KM.C02.cellsLoop_error', 'KM.C02.C02_surplus_row_rejected', 'KM.C02.C02_row_error_propagates', 'KM.C02.C02_data_cell_node', 'KM.C02.C02_split_and_end', 'KM.rowStep_shape', 'KM.runRows_startsOk', 'KM.runRows_stageCount', 'KM.cellStep_frame', 'KM.cellStep_length', 'KM.addNode_length',
             'KM.C02T.C02_tree', 'KM.C02T.C02_tree_text', 'KM.C02T.C02_import_succeeds', 'KM.C02T.C02_tree_exists', 'KM.C02T.cellStep_body', 'KM.C02T.cellStep_header',
             'KM.C02T.emitM_eq', 'KM.C02T.cellStep_track', 'KM.C02T.cellStep_ok', 'KM.C02T.cellsLoop_track', 'KM.C02T.cellsLoop_ok', 'KM.C02T.rowStep_track',
             'KM.C02T.rowStep_ok', 'KM.C02T.runRows_track', 'KM.C02T.runRows_ok', 'KM.C02T.step_cells',
-            'KM.C02K.cellStep_tok', 'KM.C02K.modelHdrEnc_eq', 'KM.C02K.cellsLoop_tok', 'KM.C02K.lookup_hdr_row', 'KM.C02K.rowStep_tok', 'KM.C02K.runRows_tok', 'KM.C02K.C02_tokens']
+            'KM.C02K.cellStep_tok', 'KM.C02K.modelHdrEnc_eq', 'KM.C02K.cellsLoop_tok', 'KM.C02K.lookup_hdr_row', 'KM.C02K.rowStep_tok', 'KM.C02K.runRows_tok', 'KM.C02K.C02_tokens',
+            'KM.C02S.surplus_cell_fails', 'KM.C02S.surplus_row_fails', 'KM.C02S.C02_surplus_text']
 FINGERPRINTS = ['importer.Importer', 'document.Node', 'document.MultistageTree', 'document.SignatureNodes', 'tokens.HeaderToken.export']
 RULE = ('(a) EVERY spine-operator layout with <= 2 initial spines, <= 4 live paths and <= 2 (quick) / 3 (thorough) operator rows, each column of each '
         'operator row being one of * *^ *v *-, filled with distinguishable data cells; (a2) EVERY pattern of *v / * on one line over one spine split into 3..6 sub-spines (and next to a second spine of the same type); (b) generated documents of the full grammar (quick 40 / '
@@ -234,6 +235,29 @@ def explore(ctx, depth):
         exp = {'ok': [['**text', '**text'], [t, 'plain'], ['next', t], ['*-', '*-']]}
         mrows = ctx.driver.ask([{'op': 'doc.rows', 'text': text}])[0]
         ctx.check({'text': text, 'clause': 'literal cell text'}, got, {'ok': mrows}, exp, what='the line reader interprets quotes / commas / spaces')
+    # (c2) the file entry point reads the file's own lines: characters that str.splitlines() treats as line boundaries (VT, FF, FS, GS, RS, NEL,
+    # U+2028, U+2029) are ordinary cell text in a file whose lines end with LF or CRLF
+    import tempfile, os, shutil
+    tmp = tempfile.mkdtemp(prefix='kernverif_c02_')
+    try:
+        for k, ch in enumerate(['\x0b', '\x0c', '\x1c', '\x1d', '\x1e', '\x85', '\u2028', '\u2029']):
+            for eol in ('\n', '\r\n'):
+                cells = [['**kern', '**text'], ['4c', 'a' + ch + 'b'], ['4d', 'end' + ch], ['4e', '!x' + ch + 'y'], ['*-', '*-']]
+                ftext = eol.join('\t'.join(r) for r in cells) + eol
+                path = os.path.join(tmp, 'f%d_%d.krn' % (k, len(eol)))
+                with open(path, 'w', encoding='utf-8', newline='') as f:
+                    f.write(ftext)
+                def run_file():
+                    d, e = kp.load(path)
+                    return [[n.token.encoding for n in st] for st in d.tree.stages[1:]]
+                got = call(run_file)
+                ctx.seen({'clause': 'file lines', 'char': repr(ch), 'eol': repr(eol)}, True)
+                if got != {'ok': cells}:
+                    ctx.fail({'clause': 'literal cell text (file entry point)', 'file_text': ftext, 'char': repr(ch)},
+                             'a file is not imported line for line and cell for cell (a character inside a cell was taken for a line boundary or dropped)',
+                             impl=got, expected=cells)
+    finally:
+        shutil.rmtree(tmp, ignore_errors=True)
     for case in (cases[:15] if depth == 'quick' else cases[:150]):
         if case.doc is None:
             continue
@@ -241,7 +265,7 @@ def explore(ctx, depth):
         cand = [i for i, l in enumerate(lines) if not l.startswith('!!') and not l.startswith('**') and i > 0]
         if not cand:
             continue
-        for kind, cell in (('data token', '4c'), ('spine operator', '*^'), ('field comment', '!x'), ('null', '.'), ('interpretation', '*clefG2')):
+        for kind, cell in (('data token', '4c'), ('spine operator', '*^'), ('field comment', '!x'), ('null', '.'), ('interpretation', '*clefG2'), ('empty cell (trailing tab)', '')):
             i = rng.choice(cand)
             cells = lines[i].split('\t')
             pos = len(cells)     # a surplus cell at the end of the line
